@@ -16,7 +16,7 @@ def run_one(patch, benign):
         p = subprocess.run(['git', '-C', wt, 'apply', patch], capture_output=True, text=True)
         if p.returncode != 0:
             res['status'] = 'PATCH-FAILED'; res['out'] = p.stderr; return res
-        env = dict(os.environ, VERIF_REPO=wt, VERIF_NO_EVIDENCE='1', VERIF_CACHE='/var/tmp/nuverif-selftest-cache' + ('' if VERIF == '/verif' else '-dev'))
+        env = dict(os.environ, VERIF_REPO=wt, VERIF_NO_EVIDENCE='1', VERIF_CACHE=tmp + '/cache')   # facts of a patched tree are of no use to any other run: they go with the scratch directory
         fired = {}
         for prop in props:
             t0 = time.time()
